@@ -422,3 +422,40 @@ def stack_columns(term: P):
         if inner and inner[0] == "call" and call_name(inner) in ("numpy.array", "numpy.vstack", "numpy.stack") and inner[2]:
             return seq_items(inner[2][0])
     return None
+
+
+def list_appends(ev, sink: P):
+    """Everything appended to the list object ``sink`` in evaluation order, as 'call' events with ``extra['args'] = [item]``:
+    ``sink.append(x)``; ``sink.extend(other)`` / ``sink += other`` where ``other`` is a list built in this function (its literal initial
+    items, then its own appends, each at the place it happens); ``sink.extend([a, b])``.  A list that only collects lines on behalf of
+    another one (a helper's result, inlined) is the same accumulation as appending to the outer list directly."""
+    from ..symex import Event, obj_init
+    feeders, order = {sink.key()}, []
+    changed = True
+    while changed:
+        changed = False
+        for e in ev.events:
+            src = None
+            if e.kind == "call" and e.target is not None and e.target.key().endswith(".extend") and e.target.key()[:-7] in feeders and e.extra.get("args"):
+                src = e.extra["args"][0]
+            elif e.kind == "aug" and e.op in ("Add", "+") and e.target is not None and e.target.key() in feeders:
+                src = e.value
+            if src is not None and src.as_atom() and src.as_atom()[0] == "obj" and src.key() not in feeders:
+                feeders.add(src.key())
+                changed = True
+    out, born = [], set()
+    for e in ev.events:
+        if e.kind == "assign" and e.value is not None and e.value.key() in feeders and e.value.key() != sink.key():
+            a = e.value.as_atom()
+            # first binding of the object: its literal initial items
+            if a and a[0] == "obj" and e.value.key() not in born:
+                born.add(e.value.key())
+                for it in seq_items(obj_init(e.value)) or ():
+                    out.append(Event("call", e.node, e.guards, e.loops, target=P.atom(("attr", e.value, "append")), value=None,
+                                     extra={"args": [it], "kwargs": [], "initial": True}))
+        elif e.kind == "call" and e.target is not None and e.target.key().endswith(".append") and e.target.key()[:-7] in feeders:
+            out.append(e)
+        elif e.kind == "call" and e.target is not None and e.target.key().endswith(".extend") and e.target.key()[:-7] in feeders and e.extra.get("args"):
+            for it in seq_items(e.extra["args"][0]) or ():
+                out.append(Event("call", e.node, e.guards, e.loops, target=e.target, value=None, extra={"args": [it], "kwargs": []}))
+    return out
